@@ -133,32 +133,32 @@ def check_run(model, rep):
                f'fresh-start paths: {nf}, continuation paths: {nc} (both are required)')
 
 
-def check_reset(model, rep):
+def check_reset(model, rep, R='C12.reset'):
     ir = SolverIR(model, opaque_methods=())
     ir.sx.variable_kinds = VARIABLE_KINDS
     try:
         m, outs = ir.run_method('Powertrain', 'reset')
     except CannotDecide as e:
-        rep.cannot('C12.reset', 'Powertrain.reset', str(e))
+        rep.cannot(R, 'Powertrain.reset', str(e))
         return
     sx = ir.sx
     done = [o for o in outs if o.kind in ('fall', 'return')]
     if len(done) != 1:
-        rep.cannot('C12.reset', 'Powertrain.reset', f'{len(done)} completing paths', m.loc)
+        rep.cannot(R, 'Powertrain.reset', f'{len(done)} completing paths', m.loc)
         return
     effs = done[0].state.effects
     # time axis emptied
     t_ok = any(e[0] == 'store' and e[1] == 'self' and e[2].endswith('__time') and isinstance(e[3], Tv) and not e[3].items
                for e in effs) or any(e[0] == 'opaque-call' and str(e[1]).endswith('time.clear') for e in effs)
-    rep.decide(t_ok, 'C12.reset', 'Powertrain.reset:time', 'the time axis is not emptied', loc=m.loc)
+    rep.decide(t_ok, R, 'Powertrain.reset:time', 'the time axis is not emptied', loc=m.loc)
     loops = [e[1] for e in effs if e[0] == 'loop']
     eloops = [L for L in loops if L.kind == 'index']
     if len(eloops) != 1:
-        rep.cannot('C12.reset', 'Powertrain.reset:elements', f'{len(eloops)} loops over the elements', m.loc)
+        rep.cannot(R, 'Powertrain.reset:elements', f'{len(eloops)} loops over the elements', m.loc)
         return
     L = eloops[0]
     all_ok = ir.ctx.eq(L.start, Rat.const(0)) and ir.ctx.eq(L.stop, Rat.atom('n'))
-    rep.decide(all_ok, 'C12.reset', 'Powertrain.reset:coverage', f'reset visits {L.index_set(ir.ctx)}, all elements required', loc=m.loc)
+    rep.decide(all_ok, R, 'Powertrain.reset:coverage', f'reset visits {L.index_set(ir.ctx)}, all elements required', loc=m.loc)
     me = f'E[{ir.ctx.show(L.index)}]'
     restored = {}
     cleared = None
@@ -181,17 +181,17 @@ def check_reset(model, rep):
     if 'fromkeys' in src:
         shared_list = True
     if shared_list and not cleared:
-        rep.violation('C12.reset', 'Powertrain.reset:clear', 'the time-variable lists are replaced through dict.fromkeys/update with a '
+        rep.violation(R, 'Powertrain.reset:clear', 'the time-variable lists are replaced through dict.fromkeys/update with a '
                       'single list object shared by every variable (the rerun appends all variables into one list)', m.loc)
     elif cleared:
-        rep.holds('C12.reset', 'Powertrain.reset:clear', 'every key of every element gets a fresh empty list', m.loc)
+        rep.holds(R, 'Powertrain.reset:clear', 'every key of every element gets a fresh empty list', m.loc)
     else:
-        rep.cannot('C12.reset', 'Powertrain.reset:clear', 'clearing of the time variables is outside the recognised idioms', m.loc)
+        rep.cannot(R, 'Powertrain.reset:clear', 'clearing of the time variables is outside the recognised idioms', m.loc)
     # restores
     attr_key = {v: k for k, v in VARIABLE_ATTR.items()}
     for attr in BASE6 + ('pwm',):
         if attr not in restored:
-            rep.violation('C12.reset', f'Powertrain.reset:restore[{attr}]', f'{attr} is not restored to its first recorded sample', m.loc)
+            rep.violation(R, f'Powertrain.reset:restore[{attr}]', f'{attr} is not restored to its first recorded sample', m.loc)
     for attr, lst in sorted(restored.items()):
         key = attr_key.get(attr)
         ok, why, line = True, '', m.node.lineno
@@ -221,8 +221,8 @@ def check_reset(model, rep):
             if attr == 'pwm' and not any('MotorBase' in str(i) or 'DCMotor' in str(i) for i in inst):
                 ok, why = False, 'pwm restored outside the motor branch'
                 break
-        rep.decide(ok, 'C12.reset', f'Powertrain.reset:restore[{attr}]', why, loc=f'{m.module}:{line}')
-    rep.require('C12.reset', 9)
+        rep.decide(ok, R, f'Powertrain.reset:restore[{attr}]', why, loc=f'{m.module}:{line}')
+    rep.require(R, 9)
 
 
 def check(model, rep):
